@@ -274,3 +274,74 @@ def identity_test_ok(world, ev, f):
     if okx and okyz and oky and len(conds) == 3:
         return True, "X == 0 and Y == Z (mod Q) and Y != 0"
     return False, "True-path conditions are %s" % sorted(show(t, maxdepth=4) + "=" + str(p) for t, p in conds)
+
+
+def sqrt_helper_ok(world, ev, f):
+    """Does f(y) implement the field square root used by point decompression:
+    xx = (y^2 - 1)/(d y^2 + 1); x = xx^((Q+3)/8); if x^2 != xx: x *= sqrt(-1); return the even root?
+    Decided on the paths of f evaluated on a symbolic y (the function is loop-free)."""
+    from .evalr import Ev, Policy
+    from .poly import term_poly
+    qn, Q = field_prime(world, ev)
+    dn, d = curve_d(world, ev)
+    pol = Policy(world)
+    pol.force_inline.add(f.qual)
+    e2 = Ev(world, policy=pol)
+    y = Sym("y", "int")
+    outs = e2.run(f, [y], [], world.static.fork())
+    rets = [o for o in outs if o.kind == "return"]
+    if len(rets) != len(outs) or not rets:
+        return False, "the root helper can raise or has no returning path"
+    I = None
+    seen = set()
+    for o in rets:
+        conds = [(t, p) for (t, p, _) in o.state.pc]
+        v = o.value
+        flipped = is_app(v, "Sub") and v.args[0] == Const(Q)
+        x = v.args[1] if flipped else v
+        times_i = False
+        if is_app(x, "Mod") and x.args[1] == Const(Q) and is_app(x.args[0], "Mult"):
+            a, b = x.args[0].args
+            for u, w in ((a, b), (b, a)):
+                if isinstance(u, Const) and isinstance(u.v, int):
+                    I = u.v
+                    x = w
+                    times_i = True
+        if not (is_app(x, "pow") and len(x.args) == 3 and x.args[1] == Const((Q + 3) // 8) and x.args[2] == Const(Q)):
+            return False, "candidate root is not xx^((Q+3)/8) mod Q: %s" % show(x, maxdepth=4)
+        xx = x.args[0]
+        # xx * (d y^2 + 1) == y^2 - 1 with the inverse written as pow(., Q-2, Q)
+        invs = [t for t in subterms(xx) if is_app(t, "pow") and len(t.args) == 3 and t.args[1] == Const(Q - 2) and t.args[2] == Const(Q)]
+        if len(invs) != 1:
+            return False, "xx does not contain exactly one field inversion"
+        atoms = {"y": y, "den_inv": invs[0]}
+        try:
+            pxx = term_poly(xx, Q, atoms)
+            pden = term_poly(invs[0].args[0], Q, atoms)
+        except AnalysisError as e:
+            return False, str(e)
+        Y = Poly.var(Q, "y")
+        DI = Poly.var(Q, "den_inv")
+        if not (pxx - (Y * Y - 1) * DI).is_zero() or not (pden - (Poly.const(Q, d) * Y * Y + 1)).is_zero():
+            return False, "xx is not (y^2 - 1) / (d y^2 + 1)"
+        # which branch: x^2 == xx or not
+        test = mk_app("NotEq", (mk_app("Mod", (mk_app("Sub", (mk_app("Mult", (x, x)), xx)), Const(Q))), Const(0)))
+        pol_ = [p for (t, p) in conds if t == test or t == mk_app("Eq", test.args)]
+        if not pol_:
+            return False, "no test x^2 == xx (mod Q) selects between x and x*sqrt(-1)"
+        wrong = pol_[0] if any(t == test for (t, _) in conds) else not pol_[0]
+        if wrong != times_i:
+            return False, "the root is multiplied by sqrt(-1) on the wrong branch"
+        cand = mk_app("Mod", (mk_app("Mult", (x, Const(I))), Const(Q))) if times_i else x
+        odd_t = mk_app("NotEq", (mk_app("Mod", (cand, Const(2))), Const(0)))
+        odd = [p if t == odd_t else (not p) for (t, p) in conds if t == odd_t or t == mk_app("Eq", odd_t.args)]
+        if len(odd) != 1 or odd[0] != flipped:
+            return False, "the candidate is not negated exactly when it is odd"
+        if len(conds) != 2:
+            return False, "the root helper branches on something besides 'x^2 == xx' and the parity of the candidate"
+        seen.add((times_i, flipped))
+    if I is None or (I * I + 1) % Q != 0:
+        return False, "the constant multiplying the candidate is not a square root of -1"
+    if len(seen) != 4:
+        return False, "expected the four cases (x or x*sqrt(-1)) x (even or negated), found %d" % len(seen)
+    return True, "xx = (y^2-1)/(d y^2+1); x = xx^((Q+3)/8), times sqrt(-1) when x^2 != xx; even representative returned"
